@@ -8,6 +8,7 @@ import (
 	"io"
 	"reflect"
 	"testing"
+	"time"
 
 	"github.com/lugu/qiloop/bus"
 	"github.com/lugu/qiloop/bus/directory"
@@ -26,7 +27,10 @@ import (
 
 const prop = "C08"
 
-func TestMain(m *testing.M) { vt.Main(m) }
+func TestMain(m *testing.M) {
+	vt.Watchdog = 30 * time.Second
+	vt.Main(m)
+}
 
 // Case is one valid encoding for one decoder; every strict prefix is tried.
 type Case struct {
